@@ -21,7 +21,7 @@ PROBES = {
     'C05': ['reply-coalesced-with-data', 'reply-split', 'disconnect-before-method-reply', 'disconnect-before-request-reply',
             'disconnect-mid-reply', 'disconnect-while-relaying', 'atyp-ipv4', 'atyp-ipv6', 'atyp-domain', 'atyp-unknown',
             'error-code-1..8', 'error-code-9..255', 'method-rejected', 'wrong-version', 'app-wrote', 'resolve', 'resolve-ptr',
-            'server-fin-after-data', 'segmented-delivery', 'fault:reset', 'fault:fin'],
+            'server-fin-after-data', 'server-does-not-wait', 'segmented-delivery', 'fault:reset', 'fault:fin'],
     'C06': ['target-hostname', 'target-ipv4', 'target-ipv6', 'target-len-255', 'target-len-256+', 'target-nonascii',
             'port-0', 'port-65535', 'port-256..', 'method-reply-split', 'req-connect', 'req-resolve', 'req-resolve-ptr',
             'refused-unencodable'],
@@ -81,9 +81,28 @@ class SocksPeer(Peer):
 
     def connection_made(self, conn):
         self.conn = conn
+        if self.run.eager:
+            # a server that does not wait for the client: the whole concatenated stream is on the wire at once
+            run = self.run
+            cmd = {'CONNECT': 1, 'RESOLVE': 0xF0, 'RESOLVE_PTR': 0xF1}[run.req_type]
+            reply, app, close = run.draw_reply({'cmd': cmd})
+            self.sim.log('socks-eager', run.method_reply.hex(), reply.hex(), len(app), 'close' if close else '')
+            self.send(run.method_reply)
+            if run.method_reply == b'\x05\x00':
+                self.send(reply)
+                self.reply_end = len(self.sent)
+                if app:
+                    self.send(app)
+            self.state = 'eager'
+            if close:
+                self.closed_by_us = True
+                self.conn.close()
 
     def data_received(self, data):
         self.all += data
+        if self.state == 'eager':
+            self.sim.log('socks-recv', len(data), self.state)
+            return
         if self.state == 'relay':
             self.app_from_client += data
         else:
@@ -199,6 +218,7 @@ class SocksRun(object):
         self.request_seen = None
         self.extra_after_request = b''
         self.last_delivered = 0
+        self.eager = False
 
     # ----------------------------------------------------------------- drawing
     def draw_target(self):
@@ -292,6 +312,9 @@ class SocksRun(object):
             self.sim.probe('method-rejected')
         if k == 3:
             self.sim.probe('wrong-version')
+        self.eager = bool(c05 and ch.chance(1, 5, 'eager') and self.sim.gate('socks-server-eager'))
+        if self.eager:
+            self.sim.probe('server-does-not-wait')
         self.fault_kind = None
         if c05 and ch.chance(1, 3, 'fault'):
             self.fault_kind = ch.pick(['reset', 'fin'], 'faultkind')
@@ -607,6 +630,10 @@ class SocksRun(object):
                 raise HarnessError('server never got a complete request in a C05 run: %s' % bytes(self.peer.all).hex())
             raise HarnessError('reply still pending at quiescence (state %s)' % self.peer.state)
         if not self.result:
+            if self.eager:
+                sim.fail('C05.reply-left-unparsed-when-it-shares-a-chunk-with-the-method-reply',
+                         'the server stream (sent without waiting for the client) is completely delivered and says %r, but '
+                         'connect()/resolve() never fired' % (m[0],))
             sim.fail('C05.result-pending', 'server stream says %r but connect()/resolve() never fired' % (m[0],))
         kind, val = self.result[0]
         if m[0] == 'fail':
@@ -646,6 +673,9 @@ class SocksRun(object):
             # the application's writes go out on the same connection, after the request
             want = b''.join(self.app_writes)
             got = bytes(self.peer.app_from_client)
+            if self.eager:
+                r = parse_request(self.peer.all[3:])
+                got = bytes(self.peer.all[3 + r[1]:]) if isinstance(r[0], dict) else b''
             if not closed or self.peer.closed_by_us:
                 if got != want and not (closed and want.startswith(got)):
                     sim.fail('C05.app-writes-lost', 'application wrote %r, server received %r after the request' % (want, got))
